@@ -1,14 +1,14 @@
 /-
 C01 (source tie) — the hand-written model of `Roas::mode` equals the definition that the
 translator `pure_fns` regenerates from `/repo/src/server/ca/roa.rs` on every run
-(`Generated/PureFnsC01.lean`, `KM.Gen.Roas.mode`).
+(`Generated/PureFnsC01.lean`, `KM.Gen.C01.Roas.mode`).
 
 `mode_characterisation` and `roas_payloads_exact` (Props/C01.lean) are about `KM.Ca.Pub.Roas.mode`.
 With `gen_mode_eq_model` that function is tied to the Rust body statement by statement: an edit of
 the comparison operators, of the thresholds used, of the order of the tests or of the variants
-returned changes `KM.Gen.Roas.mode` and this file stops checking.
+returned changes `KM.Gen.C01.Roas.mode` and this file stops checking.
 
-Differences that do not matter, bridged here: the generated enum `KM.Gen.RoaMode` is regenerated
+Differences that do not matter, bridged here: the generated enum `KM.Gen.C01.RoaMode` is regenerated
 from the Rust `enum RoaMode` (variant names as in Rust); `toModel` is the obvious bijection onto
 the model's `KM.Ca.Pub.RoaMode`.  `self` enters the Rust function only through
 `self.is_currently_aggregating()` (name map of the translator), the model's `Roas.isAggregating`.
@@ -19,7 +19,7 @@ namespace KM.Props.C01Src
 open KM.Ca.Pub
 
 /-- Rust `RoaMode` variant ↦ model variant. -/
-def toModel : KM.Gen.RoaMode → RoaMode
+def toModel : KM.Gen.C01.RoaMode → RoaMode
   | .Simple => .simple
   | .StopAggregating => .stopAggregating
   | .StartAggregating => .startAggregating
@@ -39,15 +39,15 @@ theorem toModel_bijective :
 /-- The definition generated from the body of `Roas::mode` is the model function, for every
 `Roas` state and all three numbers. -/
 theorem gen_mode_eq_model (r : Roas) (total deagg agg : Nat) :
-    toModel (KM.Gen.Roas.mode r.isAggregating total deagg agg) = r.mode total deagg agg := by
-  unfold KM.Gen.Roas.mode Roas.mode
+    toModel (KM.Gen.C01.Roas.mode r.isAggregating total deagg agg) = r.mode total deagg agg := by
+  unfold KM.Gen.C01.Roas.mode Roas.mode
   cases r.isAggregating <;> simp only [] <;> (repeat' split) <;> simp_all [toModel]
 
 /-- Non-vacuity: the generated definition reaches all four variants. -/
 example :
-    KM.Gen.Roas.mode false 0 2 5 = .Simple ∧ KM.Gen.Roas.mode true 0 2 5 = .Aggregate ∧
-    KM.Gen.Roas.mode true 1 2 5 = .StopAggregating ∧ KM.Gen.Roas.mode true 2 2 5 = .Aggregate ∧
-    KM.Gen.Roas.mode false 6 2 5 = .StartAggregating ∧ KM.Gen.Roas.mode false 5 2 5 = .Simple := by
+    KM.Gen.C01.Roas.mode false 0 2 5 = .Simple ∧ KM.Gen.C01.Roas.mode true 0 2 5 = .Aggregate ∧
+    KM.Gen.C01.Roas.mode true 1 2 5 = .StopAggregating ∧ KM.Gen.C01.Roas.mode true 2 2 5 = .Aggregate ∧
+    KM.Gen.C01.Roas.mode false 6 2 5 = .StartAggregating ∧ KM.Gen.C01.Roas.mode false 5 2 5 = .Simple := by
   decide
 
 end KM.Props.C01Src
